@@ -44,7 +44,7 @@ def is_reg(p):
 
 def fs_axioms(ctx, p):
     """A-fs facts about path p (instantiated once per path term)"""
-    key = ('fsax', p.get_id())
+    key = ('fsax', ctx.keep(p))
     if key in ctx.axiom_tags:
         return
     ctx.axiom_tags.add(key)
@@ -55,6 +55,10 @@ def fs_axioms(ctx, p):
     ctx.assume(fs_read_err(p) >= 0)
     ctx.assume(fs_fd(p) >= 3)
     ctx.assume(fs_path_of_fd(fs_fd(p)) == p)
+    # quiescent tree: an object that can be opened exists, so stat/fstat of it never reports ENOENT; the empty path
+    # names nothing (POSIX: ENOENT)
+    ctx.assume(z3.Implies(fs_open_err(p) == 0, fs_stat_err(p) != _errno.ENOENT))
+    ctx.assume(z3.Implies(p == z3.StringVal(''), z3.And(fs_open_err(p) == _errno.ENOENT, fs_stat_err(p) == _errno.ENOENT)))
     # st_size of a regular file is its length, or 0 on file systems that do not report it
     ctx.assume(z3.Implies(is_reg(p), z3.Or(fs_size(p) == 0, fs_size(p) == z3.Length(fs_data(p)))))
     # ENXIO / EOPNOTSUPP from open() happen for device nodes, FIFOs and sockets, never for regular files
